@@ -14,10 +14,26 @@
         incremental trainings without explicit lower bound: first tag ordinal, the upper bound of each training
         (recorded as the next tag's ordinal), data → lower bounds handed to Feed.load, rows per training
 
+  oncearg ::= none | (s <atom>) | (m <member name>)
+  (xwindows <kind>|none oncearg <ships:nat> <cached:bool> ((raw raw)*) (<int>*))
+        → (error <Exc>)                              the source constructor (or a round trip) refused
+        | (ok ((ok <idx>*) | (error <Exc>))*)        one launch per window
+        the whole path: Source.query(ordinal, once) → [cloudpickle/copy round trip]^ships → one launch per window,
+        independent readers (cached = false) or ONE feed whose result cache (literal key) starts empty (cached = true)
+  (ordinal oncearg)                      → (ok <member> <member after one reconstruction>) | (error <Exc>)
+  (xchain <kind>|none oncearg <ships:nat> <cached:bool> <committed:bool> raw (raw*) (<int>*))
+        → (ok (raw*) ((<idx>*)*)) | (error <Exc>)
+        `chain` over the whole path: source built from `oncearg`, components shipped, read through the result cache
+        or not, and — committed = true — every tag (the first one too) written to the registry and read back
+        (`Tag.dumps`/`Tag.loads`) before the training that starts from it
+
   The model is polymorphic in the ordinal axis; the driver runs it at `Int` (ranks of the kind's domain points).
 -/
 import ForML.Model.Sexp
 import ForML.Model.Ordinal
+import ForML.Model.OrdinalShip
+import ForML.Model.OrdinalCache
+import ForML.Model.OrdinalChain
 open ForML ForML.Ordinal
 
 def optStr? : Sexp → Option (Option String)
@@ -71,6 +87,16 @@ def ord? : Sexp → Option (Option (Kind × Once))
 def win? : Sexp → Option (Option (Raw Int) × Option (Raw Int))
   | .list [a, b] => do pure (← raw? a, ← raw? b)
   | _ => none
+
+def onceArg? : Sexp → Option OnceArg
+  | .atom "none" => some .none
+  | .list [.atom "s", .atom s] => some (.str s)
+  | .list [.atom "m", m] => (member? m).map .member
+  | _ => none
+
+def optKind? : Sexp → Option (Option Kind)
+  | .atom "none" => some none
+  | k => (kind? k).map some
 
 def ofErr (e : Err) : Sexp := .list [.atom "error", .atom e.name]
 
@@ -128,6 +154,47 @@ def stepC10 : Sexp → Sexp
         | .error e => ofErr e
       | none => .atom "bad-op"
     | _, _, _, _ => .atom "bad-op"
+  | .list [.atom "xwindows", k, a, n, c, .list ws, d] =>
+    match optKind? k, onceArg? a, n.nat?, bool? c, ws.mapM win?, d.intList? with
+    | some k, some a, some n, some c, some ws, some d =>
+      let kindOf : Nat → Kind := fun _ => k.getD .integer
+      let ordinal : Option Nat := k.map (fun _ => 0)
+      let res := if c then sourceWindowsCached kindOf ordinal a n ws d else sourceWindows kindOf ordinal a n ws d
+      match res with
+      | .error e => ofErr e
+      | .ok rs => .list [.atom "ok", .list (rs.map (fun r => match r with
+          | .ok idx => .list (.atom "ok" :: idx.map Sexp.ofNat)
+          | .error e => ofErr e))]
+    | _, _, _, _, _, _ => .atom "bad-op"
+  | .list [.atom "xchain", k, a, n, c, p, tag, .list us, d] =>
+    match optKind? k, onceArg? a, n.nat?, bool? c, bool? p, raw? tag, us.mapM raw?, d.intList? with
+    | some k, some a, some n, some c, some p, some tag, some us, some d =>
+      match us.mapM id with
+      | some us =>
+        let kindOf : Nat → Kind := fun _ => k.getD .integer
+        let ordinal : Option Nat := k.map (fun _ => 0)
+        let commit : Raw Int → Raw Int := if p then persistRaw else id
+        match sourceTrainings kindOf ordinal a n c commit (tag.map commit) (us.map (fun u => (none, u))) d with
+        | .error e => ofErr e
+        | .ok (lowers, rs) =>
+          match rs.findSome? (fun r => match r with | .error e => some e | .ok _ => none) with
+          | some e => ofErr e
+          | none => .list [.atom "ok", .list (lowers.map ofRaw),
+              .list (rs.map (fun r => match r with
+                | .ok l => .list (l.map Sexp.ofNat)
+                | .error e => ofErr e))]
+      | none => .atom "bad-op"
+    | _, _, _, _, _, _, _, _ => .atom "bad-op"
+  | .list [.atom "ordinal", a] =>
+    match onceArg? a with
+    | some a =>
+      match OrdinalSpec.new 0 a with
+      | .error e => ofErr e
+      | .ok o =>
+        match o.reconstruct with
+        | .error e => ofErr e
+        | .ok o' => .list [.atom "ok", .atom o.once.name, .atom o'.once.name]
+    | none => .atom "bad-op"
   | _ => .atom "bad-op"
 
 def main : IO Unit := driverLoop stepC10
